@@ -50,6 +50,21 @@ CLAIMED = {
         "_writemetadata_lf: 2500 Hz, per-shank channel counts, size, provenance keys, source metadata untouched.",
    note="Numeric equality with whole-trace low-pass + decimation and window independence (<= 1 LSB) are a bounded stand-in on real files (sosfiltfilt is opaque: A-SCIPY shape only).",
    tech="AST->z3 VC generation with an opaque-filter summary (deductive) + bounded numeric stand-in"),
+ "C06": dict(cat="other", ref="DESIGN.md 4/C06",
+   text="One symbolic batch of the real per-worker loop (nested my_function located by name, free variables symbolic): file position before each write, rows == kept range with the documented taper margins, sync columns bit-identical, "
+        "saturation slice, RMS/timestamp positions, loop invariant position == f(batch index), padding; the worker's start batch and boundary formulas; lemmas: batches tile [0,ns), consecutive workers leave no gap, writes are position-determined.",
+   note="All filtering is opaque (shapes only); saturation() through C16's contract; joblib schedules are not modelled (position-determinism is what is proved); byte identity across worker counts / QC lengths via the bounded stand-in with a NumPy/SciPy shim for pyfftw. Known finding F-C06-1 (phantom batch).",
+   tech="AST->z3 VC generation on a nested closure with ghost file positions + arithmetic lemmas (deductive) + bounded native stand-in"),
+ "C02": dict(cat="other", ref="DESIGN.md 4/C02",
+   text="Ghost-file-system contracts: companion resolution for data / compressed / metadata paths under every combination of existing files; compress_file, decompress_file, decompress_to_scratch with a normal and an exceptional outcome of mtscomp: "
+        "final names only ever carry complete files (also after an earlier failed attempt), sources removed only after their replacement is complete, lossless by D(C(b))=b.",
+   note="mtscomp is external: assumed contract (A-MTSCOMP) validated natively: reader on .bin vs .cbin around chunk boundaries, byte round trip, failures injected at each chunk, fail-then-retry histories (bounded). Known finding F-C02-1 (negative steps on .cbin).",
+   tech="AST->z3 VC generation over a ghost file system with exceptional post-conditions (deductive) + bounded native stand-in"),
+ "C04": dict(cat="other", ref="DESIGN.md 4/C04",
+   text="Contracts of every step of NP2Converter.process over the ghost file system: _prepare_files_NP24 (no-op on repeat, outputs never alias the input, channel lists = where(shank==s)+sync), check_NP24 (every window compared, flag only after the loop), "
+        "epilogue order (original unlinked only after check_NP24 returned normally with both flags), delete_NP24 guard, compress_NP24/NP21 through C02's compress_file incl. failures, early exits, init_params reset.",
+   note="Histories are handled inductively (one guarded unlink of the original); interruptions = exceptions of external calls; real run histories on files (first/repeat/overwrite/corrupted split/NP2.1/NP1) are a bounded stand-in. Known finding F-C04-1 (partial folders).",
+   tech="AST->z3 VC generation over a ghost file system, effect-log ordering obligations (deductive) + bounded histories"),
 }
 NA = {
  "C19": "statistical recovery statement about a heuristic (cross-correlation + greedy matching); no contract over sync_timestamps decides it for all inputs - see DESIGN.md section 5",
